@@ -1,6 +1,6 @@
 (* Props/C24.v — Transactions see their own writes.  Statements, `exact`, Print Assumptions. *)
 From Coq Require Import List ZArith NArith Bool.
-From NDB Require Import Txn.Model Txn.Proofs.
+From NDB Require Import Txn.Model Txn.Proofs Txn.Footprint.
 Import ListNotations.
 
 (* the property over the model of what the code does *)
@@ -35,3 +35,20 @@ Definition C24_creates_only_statement : Prop :=
 Theorem C24_creates_only : C24_creates_only_statement.
 Proof. exact txn_creates_ryw. Qed.
 Print Assumptions C24_creates_only.
+
+(* the conditional theorem outside K-C24-snapshot: if no statement's MATCH / MERGE / DELETE filter
+   key was touched (created, updated, deleted, connected) by the buffer of the earlier statements of
+   the same transaction, the code's transaction is the spec's — whatever happens to failing statements *)
+Definition C24_disjoint_footprints_statement : Prop :=
+  forall atomic db ss, footprints_disjoint atomic db [] ss = true -> txn false atomic db ss = txn true atomic db ss.
+Theorem C24_disjoint_footprints : C24_disjoint_footprints_statement.
+Proof. exact txn_footprint_ryw. Qed.
+Print Assumptions C24_disjoint_footprints.
+
+(* the hypothesis is met by a transaction that creates, updates committed nodes, is refused a DELETE,
+   connects and merges; the refutation witness is outside it *)
+Example C24_disjoint_footprints_not_vacuous :
+  footprints_disjoint false db1 [] ss_fp = true /\
+  statuses false false db1 [] ss_fp = [true; true; false; true; true; true] /\
+  footprints_disjoint false db0 [] [w24a; w24b] = false.
+Proof. split; [exact ss_fp_disjoint | split; [exact ss_fp_statuses | exact w24_not_disjoint]]. Qed.
